@@ -134,12 +134,21 @@ func doLocalSymbolize(prof *profile.Profile, fast, force bool, obj plugin.ObjToo
 	}
 
 	functions := map[profile.Function]*profile.Function{}
+	// Function IDs may be sparse, so allocate new IDs above the largest
+	// existing one rather than from the length of the function table.
+	var maxFunctionID uint64
+	for _, f := range prof.Function {
+		if f.ID > maxFunctionID {
+			maxFunctionID = f.ID
+		}
+	}
 	addFunction := func(f *profile.Function) *profile.Function {
 		if fp := functions[*f]; fp != nil {
 			return fp
 		}
 		functions[*f] = f
-		f.ID = uint64(len(prof.Function)) + 1
+		maxFunctionID++
+		f.ID = maxFunctionID
 		prof.Function = append(prof.Function, f)
 		return f
 	}
